@@ -7,7 +7,8 @@ Pipeline (DESIGN 3.1):
                               evaluator instances over a catalogue of hand-wrapped expressions
            Buggy_* cfgs       negative controls TLC must refute on the model
   (2) drive real pymbolic     tag_common_subexpressions, CSEWalkMapper/CSETagMapper, wrap_in_cse,
-                              make_common_subexpression, instrumented EvaluationMapper instances
+                              make_common_subexpression, instrumented EvaluationMapper instances;
+                              every list once per object-sharing layout (build_list)
   (3) TLC  C12_Judge          tag / helper records judged with the M- and S-layer operators
            C12_HJudge         history traces: one TLC step per recorded event
   (4) classify, (5) evidence.
@@ -37,7 +38,11 @@ NEG_CONTROLS = [
     # round 2: a handler's "nothing changed" shortcut that does not look at every child position
     ("C12_Gen", "C12_Gen_Buggy_ShortcutSkipsFunction", "TagModelMeetsProperty", True),
     ("C12_Gen", "C12_Gen_Buggy_ShortcutSkipsLast", "TagModelMeetsProperty", False),
+    # round 3: a use-count walk that depends on which equal operands are ONE object
+    ("C12_Gen", "C12_Gen_Buggy_WalkDedupsSharedOperands", "TagModelMeetsProperty", True),
+    ("C12_Gen", "C12_Gen_Buggy_WalkSkipsSeenObjects", "TagModelMeetsProperty", False),
 ]
+NO_LAYOUT = {"mode": "none", "gs": [], "cls": "none"}
 
 
 def _envs(extra):
@@ -156,14 +161,117 @@ def _ncalls():
     return sum(len(envobjs.FUNCS[name].calls) for name in ("f", "g"))
 
 
+# ---- round 3: the list is built as its object-sharing layout says ----------------------
+def _kids(j):
+    """Children of a tree record in the order of Expr.tla's Kids."""
+    t = j["t"]
+    if t in ("Var", "Const", "None"):
+        return []
+    if t in ser._NARY or t in ("Tup", "List"):
+        return list(j["c"])
+    if t in ser._BIN or t == "Cmp":
+        return [j["a"], j["b"]]
+    if t in ser._UN or t in ("Look", "CSE"):
+        return [j["a"]]
+    if t == "If":
+        return [j["i"], j["th"], j["el"]]
+    if t == "Call":
+        return [j["f"], *j["c"]]
+    if t == "CallKw":
+        return [j["f"], *j["c"], *[kw["e"] for kw in j["kw"]]]
+    raise kit.MachineryError(f"C12 driver: no child order for node kind {t!r}")
+
+
+def _construct(j, ks):
+    """The node j over the already built child objects ks (constructors only, as ser.from_json)."""
+    import pymbolic.primitives as p
+    from immutabledict import immutabledict
+    t = j["t"]
+    if t in ("Var", "Const", "None"):
+        return ser.from_json(j)
+    if t == "Tup":
+        return tuple(ks)
+    if t == "List":
+        return list(ks)
+    if t in ser._NARY:
+        return getattr(p, ser._NARY[t])(tuple(ks))
+    if t in ser._BIN:
+        return getattr(p, ser._BIN[t])(ks[0], ks[1])
+    if t in ser._UN:
+        return getattr(p, ser._UN[t])(ks[0])
+    if t == "Cmp":
+        return p.Comparison(ks[0], j["op"], ks[1])
+    if t == "If":
+        return p.If(ks[0], ks[1], ks[2])
+    if t == "Call":
+        return p.Call(ks[0], tuple(ks[1:]))
+    if t == "CallKw":
+        n = len(j["c"])
+        return p.CallWithKwargs(ks[0], tuple(ks[1:1 + n]),
+                                immutabledict({kw["name"]: k for kw, k in zip(j["kw"], ks[1 + n:])}))
+    if t == "Look":
+        return p.Lookup(ks[0], j["name"])
+    if t == "CSE":
+        return p.CommonSubexpression(ks[0], j["prefix"] or None, j["scope"])
+    raise kit.MachineryError(f"C12 driver: cannot construct node kind {t!r}")
+
+
+def build_list(ins, lay):
+    """The list of input expressions with the object sharing the layout asks for:
+    none - every node a new object; all - equal subtrees (leaves included) are one object;
+    groups - the occurrences (paths in Kids order from the list) of one group are ONE object,
+    built where the group's first path stands and re-used at the others; everything else is a
+    new object at every occurrence."""
+    mode = lay["mode"]
+    if mode == "none":
+        return [ser.from_json(e) for e in ins]
+    if mode == "all":
+        return list(ser.from_json_shared({"t": "Tup", "c": ins}))
+    gid = {tuple(pth): gi for gi, g in enumerate(lay["gs"]) for pth in g}
+    memo, used = {}, set()
+
+    def build(j, path):
+        gi = gid.get(path)
+        if gi is not None:
+            used.add(path)
+            if gi in memo:
+                if memo[gi][0] != j:
+                    raise kit.MachineryError(f"C12 driver: layout group {gi} joins unequal subtrees")
+                return memo[gi][1]
+        obj = _construct(j, [build(k, path + (i + 1,)) for i, k in enumerate(_kids(j))])
+        if gi is not None:
+            memo[gi] = (j, obj)
+        return obj
+
+    objs = [build(e, (i + 1,)) for i, e in enumerate(ins)]
+    if used != set(gid) or [ser.to_json(o) for o in objs] != ins:
+        raise kit.MachineryError("C12 driver: layout paths do not fit the list / list not rebuilt faithfully")
+    return objs
+
+
 def drive_tag(case, extra):
+    """One tagging case: the list is built once per object-sharing layout ("none" first) and the
+    whole observation is recorded per layout; equal observations are stored once (runs[i] is
+    the 1-based index of the observation of layout i)."""
+    lays = [NO_LAYOUT] + list(case.get("shs", []))
+    obs, keys, runs = [], {}, []
+    for lay in lays:
+        o = _observe_tag(case, build_list(case["ins"], lay), extra)
+        k = json.dumps(o, sort_keys=True)
+        if k not in keys:
+            obs.append(o)
+            keys[k] = len(obs)
+        runs.append(keys[k])
+    return {"id": case["id"], "kind": "tag", "ins": case["ins"], "shs": lays, "runs": runs, "obs": obs}
+
+
+def _observe_tag(case, ins, extra):
     import warnings
     from pymbolic.cse import tag_common_subexpressions
     from pymbolic.mapper.cse_tagger import CSETagMapper, CSEWalkMapper
     Instr = _instrumented()
     envs = _envs(extra)
-    ins = [ser.from_json(e) for e in case["ins"]]
-    rec = {"id": case["id"], "kind": "tag", "ins": case["ins"], "r": "ok", "outs": [],
+    rec = {"r": "ok", "outs": [],
            "nodes": [], "evs": [], "vals": [], "fcalls": 0, "houts": [], "hvals": []}
     try:
         with warnings.catch_warnings():
@@ -345,9 +453,14 @@ def classify(out, reports, byid, counters):
                 if f.get("hosts"):
                     # where (parent kind : child position) the unshared occurrences stand
                     sig["host"] = ",".join(sorted(set(f["hosts"])))
-                case = {"id": rec["id"], "kind": "tag", "ins": rec["ins"]}
-                detail = {"case": case, "failing_clause": f["c"], "outs": rec.get("outs"),
-                          "vals": rec.get("vals"), "verdict": r}
+                if f.get("lay"):
+                    # the failure is seen only when equal input nodes are ONE object: which ones
+                    sig["objects"] = f["lay"]
+                case = {"id": rec["id"], "kind": "tag", "ins": rec["ins"], "shs": rec["shs"][1:]}
+                ob = rec["obs"][f.get("ob", 1) - 1]
+                detail = {"case": case, "failing_clause": f["c"], "layouts": rec["shs"],
+                          "observation_of_layout": rec["runs"], "outs": ob.get("outs"),
+                          "vals": ob.get("vals"), "verdict": r}
             else:
                 sig = {"family": "helper", "clause": f["c"], "pattern": f["pat"]}
                 case = {k: rec[k] for k in ("id", "kind", "fn", "arg", "prefix", "scope")}
@@ -492,7 +605,7 @@ def run(tier, seed, out):
     recs = kit.drive("harness.c12", "drive_case", cases, {"envs": envs[0]}, chunk=150)
     for r in recs:
         if r["kind"] == "tag":
-            out.evaluations += 2 + len(r.get("vals", [])) * len(r["ins"]) * 2
+            out.evaluations += len(r["runs"]) * (2 + len(r["obs"][0].get("vals", [])) * len(r["ins"]) * 2)
         elif r["kind"] == "hist":
             out.evaluations += len(r["h"])
         else:
@@ -500,7 +613,7 @@ def run(tier, seed, out):
     judge(out, recs, wd, counters)
     for r in recs:
         if r["kind"] == "tag":
-            out.note_case(r["ins"], nontrivial=(r.get("outs") != r["ins"] or _has_wrapper(r["ins"])))
+            out.note_case(r["ins"], nontrivial=(r["obs"][0].get("outs") != r["ins"] or _has_wrapper(r["ins"])))
         elif r["kind"] == "hist":
             out.note_case([r["exprs"], r["h"]], nontrivial=len(r["h"]) > 1)
         else:
@@ -514,6 +627,9 @@ def run(tier, seed, out):
             r = fam[len(fam) // 2]
             out.samples.append({k: v for k, v in r.items() if k not in ("hvals",)})
     out.extra["tag_lists"] = len(tags)
+    out.extra["tag_runs_over_object_sharing_layouts"] = sum(len(r["runs"]) for r in tags)
+    out.extra["tag_lists_whose_observation_depends_on_object_sharing"] = len(
+        [r for r in tags if len(r["obs"]) > 1])
     out.extra["tag_lists_exhaustive"] = nexh - len(wraps)
     out.extra["evaluation_histories"] = len(hists)
     out.extra["helper_cells"] = len(wraps)
@@ -529,7 +645,11 @@ def run(tier, seed, out):
                 "position, keyword calls, subscripts, lookups, conditionals, comparisons, logical, "
                 "bitwise, min/max, the seven operation kinds, wrappers) and EVERY child position at "
                 "any depth a repeated operation in that position with leaves as siblings, as 'host + "
-                "bare repeat' and 'two hosts with other siblings'; (b) every "
+                "bare repeat' and 'two hosts with other siblings', and every taggable kind repeated "
+                "ONLY as operands of one node; every list is driven once per object-sharing layout TLC "
+                "lists for it (no sharing; all occurrences of a repeated value one object; only the "
+                "operands of one node one object; thorough: any two of 3-4 occurrences, two values at "
+                "once; everything hash-consed) and every distinct observation is judged; (b) every "
                 "history of <= MaxH top-level evaluations over <= NInst fresh/reused evaluator "
                 "instances for every 1- or 2-element list of a catalogue of hand-wrapped "
                 "expressions; (c) every helper cell (helper x argument class x prefix x scope); "
@@ -538,6 +658,9 @@ def run(tier, seed, out):
                 "than one evaluation; every helper cell.  Distinct by canonical JSON digest.")
     out.exhaustive = True
     out.assumptions += [
+        "object sharing of the input: layouts are generated per repeated composite value (all / same-node / "
+        "pairs / two values / hash-consing), not every partition of every occurrence set; the evaluation "
+        "histories are driven with separately built nodes only",
         "CPython numeric semantics as transcribed in PyNum.tla / Eval.tla",
         "inside a case no two constants are == without being identical, so == on trees is "
         "structural equality",
